@@ -1,5 +1,5 @@
 (* Pinned statements of C06: re-checked on every run. *)
-From SF Require Import Base.Prelude Gen.Generated Unsized.Types Unsized.Parse Unsized.Machine Unsized.Ops Unsized.Run Unsized.Proofs.EncodeParse Unsized.Proofs.Mem Unsized.Proofs.Notify Unsized.Proofs.Flat Unsized.Proofs.Layout Unsized.Proofs.Observe Unsized.Proofs.Path Unsized.Proofs.Context Unsized.Proofs.FocusOps Unsized.Proofs.NotifyInside Unsized.Proofs.Resize Unsized.Proofs.GenOps Unsized.Proofs.History Unsized.Proofs.Init Unsized.Proofs.History2 Unsized.Proofs.ExecTie Unsized.Proofs.ExecTie2 Unsized.Proofs.Keyed Unsized.Proofs.NotifyInside2 Unsized.Proofs.SetData Unsized.Proofs.History3 Unsized.Proofs.History4 Unsized.Proofs.InitFail Properties.C06.
+From SF Require Import Base.Prelude Gen.Generated Unsized.Types Unsized.Parse Unsized.Machine Unsized.Ops Unsized.Run Unsized.Proofs.EncodeParse Unsized.Proofs.Mem Unsized.Proofs.Notify Unsized.Proofs.Flat Unsized.Proofs.Layout Unsized.Proofs.Observe Unsized.Proofs.Path Unsized.Proofs.Context Unsized.Proofs.FocusOps Unsized.Proofs.NotifyInside Unsized.Proofs.Resize Unsized.Proofs.GenOps Unsized.Proofs.History Unsized.Proofs.Init Unsized.Proofs.History2 Unsized.Proofs.ExecTie Unsized.Proofs.ExecTie2 Unsized.Proofs.Keyed Unsized.Proofs.NotifyInside2 Unsized.Proofs.SetData Unsized.Proofs.History3 Unsized.Proofs.History4 Unsized.Proofs.InitFail Unsized.Proofs.StringSet Unsized.Proofs.Context Properties.C06.
 
 Check (C06_all_ops_continue_after_failures :
   forall ovf t h v s top pi0 v' l,
@@ -54,6 +54,13 @@ Check (C06_failing_initializer_refuted :
        get_ptr true t (m_mem s) 0 (m_len s) = Ok (top, m_len s) ->
        ulist_insert t s top ps idx kind keys = Ok (s', top', [-1; c]) ->
        ztake (m_len s') (m_mem s') = encode t v)).
+Check (C06_string_set_failure_leaves_a_value :
+  forall ovf t v s top pi0 pi c lw old bs,
+    RepF pi0 t v s top -> resolve t v pi = Some (TStruct [TList c lw], VStruct [VList old]) ->
+    256 ^ Z.of_nat lw <= zlen bs ->
+    exists s' top' pi', mstepStr ovf t s top pi bs = Ok (s', top', [-1; E_TOPRIM]) /\
+                        RepF pi' t (plug t v pi (VStruct [VList []])) s' top' /\
+                        m_cap s' = m_cap s /\ m_refuse s' = m_refuse s).
 
 Print Assumptions C06_all_ops_continue_after_failures.
 Print Assumptions C06_all_ops_failure_is_clean.
@@ -66,3 +73,4 @@ Print Assumptions C06_flat_remove_errors_are_clean.
 Print Assumptions C06_flat_continue_after_failure.
 Print Assumptions C06_realloc_refusal_precedes_writes.
 Print Assumptions C06_failing_initializer_refuted.
+Print Assumptions C06_string_set_failure_leaves_a_value.
